@@ -228,10 +228,12 @@ def random_nfa(Sigma: Set[Symbol], n: int) -> NFA:
     return NFA(Q, Sigma, delta, q0, F, epsilon)
 
 
-def _copy_transitions(delta: MutableMapping[Tuple[State, Symbol], Set[State]], N: NFA) -> None:
+def _copy_transitions(delta: MutableMapping[Tuple[State, Symbol], Set[State]], N: NFA, epsilon: Symbol) -> None:
     # N.B. the target sets are copied, since the constructions below extend them in place
     for (q, a), Q1 in N.delta.items():
-        delta[q, a] = set(Q1)
+        if a == N.epsilon:
+            a = epsilon  # the result uses one epsilon symbol for all its epsilon transitions
+        delta[q, a] |= Q1
 
 
 def nfa_repetition(N: NFA, id_generator: IdentifierGenerator = IdentifierGenerator()) -> NFA:
@@ -240,11 +242,11 @@ def nfa_repetition(N: NFA, id_generator: IdentifierGenerator = IdentifierGenerat
     Q = N.Q | {q0}
     F = N.F | {q0}
     delta = defaultdict(lambda: set([]))
-    _copy_transitions(delta, N)
+    _copy_transitions(delta, N, N.epsilon)
     for q in F:
         delta[q, N.epsilon] |= {N.q0}
     delta[q0, N.epsilon] = {N.q0}
-    return NFA(Q, Sigma, delta, q0, F)
+    return NFA(Q, Sigma, delta, q0, F, N.epsilon)
 
 
 def nfa_union(N1: NFA, N2: NFA, id_generator: IdentifierGenerator = IdentifierGenerator()) -> NFA:
@@ -254,10 +256,10 @@ def nfa_union(N1: NFA, N2: NFA, id_generator: IdentifierGenerator = IdentifierGe
     Q = N1.Q | N2.Q | {q0}
     F = N1.F | N2.F
     delta = defaultdict(lambda: set([]))
-    _copy_transitions(delta, N1)
-    _copy_transitions(delta, N2)
+    _copy_transitions(delta, N1, N1.epsilon)
+    _copy_transitions(delta, N2, N1.epsilon)
     delta[q0, N1.epsilon] = {N1.q0, N2.q0}
-    return NFA(Q, Sigma, delta, q0, F)
+    return NFA(Q, Sigma, delta, q0, F, N1.epsilon)
 
 
 def nfa_concatenation(N1: NFA, N2: NFA) -> NFA:
@@ -267,11 +269,11 @@ def nfa_concatenation(N1: NFA, N2: NFA) -> NFA:
     Q = N1.Q | N2.Q | {q0}
     F = N2.F
     delta = defaultdict(lambda: set([]))
-    _copy_transitions(delta, N1)
-    _copy_transitions(delta, N2)
+    _copy_transitions(delta, N1, N1.epsilon)
+    _copy_transitions(delta, N2, N1.epsilon)
     for q in N1.F:
         delta[q, N1.epsilon] |= {N2.q0}
-    return NFA(Q, Sigma, delta, q0, F)
+    return NFA(Q, Sigma, delta, q0, F, N1.epsilon)
 
 
 def print_nfa(N: NFA) -> str:
